@@ -90,7 +90,7 @@ size_t archive::next_chunk_size()
 		throw archive_error("Invalid archive format");
 	}
 	memcpy(&size,buffer_.c_str() + ptr_,4);
-	if(ptr_ + size < ptr_ || ptr_ + size >=buffer_.size())
+	if(size > buffer_.size() - ptr_ - 4)
 		throw archive_error("Invalid archive_format");
 
 	return size;
